@@ -88,6 +88,54 @@ def decFrame : Bytes → Option (Msg × Bytes)
     | none => none
   | [] => none
 
+/-! ### the two handshake messages (`Handshake`, `HandshakeResponse`) -/
+
+structure Hs where
+  ver : Nat
+  version : Bytes
+  short : Bytes
+  commit : Bytes
+  token : Bytes
+  deriving Repr, DecidableEq
+
+def encHs (h : Hs) : Bytes :=
+  enc16 h.ver ++ (encData h.version ++ (encData h.short ++ (encData h.commit ++ encData h.token)))
+
+def decHs (b : Bytes) : Option Hs :=
+  match dec16 b with
+  | none => none
+  | some (ver, r0) =>
+    match decData r0 with
+    | none => none
+    | some (version, r1) =>
+      match decData r1 with
+      | none => none
+      | some (short, r2) =>
+        match decData r2 with
+        | none => none
+        | some (commit, r3) =>
+          match decData r3 with
+          | none => none
+          | some (token, _) => some { ver := ver, version := version, short := short, commit := commit, token := token }
+
+def encAddrs : List AAddr → Bytes
+  | [] => []
+  | a :: as => encAddr a ++ encAddrs as
+
+/-- `HandshakeResponse`: a count byte, then that many addresses -/
+def encResp (as : List AAddr) : Bytes := UInt8.ofNat as.length :: encAddrs as
+
+def decAddrs : Nat → Bytes → Option (List AAddr)
+  | 0, _ => some []
+  | n + 1, b =>
+    match decAddr b with
+    | none => none
+    | some (a, rest) => (decAddrs n rest).map (a :: ·)
+
+def decResp : Bytes → Option (List AAddr)
+  | n :: rest => decAddrs n.toNat rest
+  | [] => none
+
 /-! ## the session: table of virtual connections -/
 
 /-- how the table compares addresses (`Addr.String()`): IP and port -/
@@ -150,6 +198,69 @@ def parseMsg (s : String) : Option Msg :=
   | ["u", li, lp, ri, rp, p] => do
     let l ← parseAddr li lp true; let r ← parseAddr ri rp true; let b ← unhex p; pure (.dgram l r b)
   | _ => none
+
+/-! ### codec line protocol
+`agentcodec hello A A | eof A A | tcp A A P | udp A A P | ping | hs <ver> P P P P | hr A…` with
+`A = t/<ip hex or ->/<port>` or `u/…`, `P = <hex>` or `-`.
+output: `<encoding> => <the decoded message in the same syntax>`; byte strings longer than 32 bytes are shown as
+`#<length>.<Σ (i+1)·bᵢ mod 2³²>` -/
+
+def wsum (b : Bytes) : Nat :=
+  (b.foldl (fun (acc : Nat × Nat) x => (acc.1 + 1, (acc.2 + (acc.1 + 1) * x.toNat) % 4294967296)) (0, 0)).2
+
+def hexd (b : Bytes) : String :=
+  if b.isEmpty then "-" else if b.length ≤ 32 then hex b else s!"#{b.length}.{wsum b}"
+
+def addrStr (a : AAddr) : String := (if a.udp then "u/" else "t/") ++ hexd a.ip ++ s!"/{a.port}"
+
+def parseCAddr (s : String) : Option AAddr :=
+  match s.splitOn "/" with
+  | [k, ip, port] =>
+    let ipb := if ip = "-" then some [] else unhex ip
+    match ipb, port.toNat? with
+    | some i, some p => if k = "t" then some { udp := false, ip := i, port := p } else if k = "u" then some { udp := true, ip := i, port := p } else none
+    | _, _ => none
+  | _ => none
+
+def parseP (s : String) : Option Bytes := if s = "-" then some [] else unhex s
+
+def msgStr : Msg → String
+  | .hello l r => s!"hello {addrStr l} {addrStr r}"
+  | .eof l r => s!"eof {addrStr l} {addrStr r}"
+  | .data l r p => s!"tcp {addrStr l} {addrStr r} {hexd p}"
+  | .dgram l r p => s!"udp {addrStr l} {addrStr r} {hexd p}"
+  | .ping => "ping"
+
+def codecDriver (args : List String) : String :=
+  let viaMsg (m : Option Msg) : String :=
+    match m with
+    | none => "bad-op"
+    | some m =>
+      let e := encBody m
+      hexd e ++ " => " ++ (match decBody (typeByte m).toNat e with | some m' => msgStr m' | none => "fail")
+  match args with
+  | ["ping"] => viaMsg (some .ping)
+  | ["hello", l, r] => viaMsg (do let l ← parseCAddr l; let r ← parseCAddr r; pure (.hello l r))
+  | ["eof", l, r] => viaMsg (do let l ← parseCAddr l; let r ← parseCAddr r; pure (.eof l r))
+  | ["tcp", l, r, p] => viaMsg (do let l ← parseCAddr l; let r ← parseCAddr r; let p ← parseP p; pure (.data l r p))
+  | ["udp", l, r, p] => viaMsg (do let l ← parseCAddr l; let r ← parseCAddr r; let p ← parseP p; pure (.dgram l r p))
+  | ["hs", ver, a, b, c, d] =>
+    match ver.toNat?, parseP a, parseP b, parseP c, parseP d with
+    | some ver, some a, some b, some c, some d =>
+      let e := encHs { ver := ver, version := a, short := b, commit := c, token := d }
+      hexd e ++ " => " ++ (match decHs e with
+        | some h => s!"hs {h.ver} {hexd h.version} {hexd h.short} {hexd h.commit} {hexd h.token}"
+        | none => "fail")
+    | _, _, _, _, _ => "bad-op"
+  | "hr" :: as =>
+    match as.mapM parseCAddr with
+    | none => "bad-op"
+    | some as =>
+      let e := encResp as
+      hexd e ++ " => " ++ (match decResp e with
+        | some as' => " ".intercalate ("hr" :: as'.map addrStr)
+        | none => "fail")
+  | _ => "bad-op"
 
 def driver (args : List String) : String :=
   match args.mapM parseMsg with
